@@ -46,6 +46,27 @@ def run(chk):
             chk.violation(rid, b.file, name, "non-wrapping integer arithmetic in %s" % mname,
                           "%s performs i64 arithmetic that is not a wrapping_* call (line %s): integer overflow no longer wraps (panics in checked builds)"
                           % (mname, o["line"]), detail=d, loc="%s:%s" % (b.file, o["line"]))
+        # integer helper calls: only the method's own wrapping_* (none at all in try_div)
+        int_calls = [o for o in ops if o["kind"] == "call" and re.search(r"core::num::<impl i(64|32|size|128)>::\w+$", o["callee"])]
+        stray = [o for o in int_calls if not (wrap and o["callee"].endswith("::" + wrap))]
+        d = {"method": mname, "integer_helper_calls": [(o["callee"].rsplit("::", 1)[1], o["line"]) for o in int_calls]}
+        chk.instance(rid, d, ok=not stray)
+        for o in stray:
+            chk.violation(rid, b.file, name, "integer helper %s in %s" % (o["callee"].rsplit("::", 1)[1], mname),
+                          "%s computes part of its result with %s (line %s): `%s` on two integers must be %s" % (
+                              mname, o["callee"].rsplit("::", 1)[1], o["line"], {"try_div": "/"}.get(mname, mname[4:]),
+                              "the float division of the converted operands" if mname == "try_div" else "i64::%s(self, rhs)" % wrap),
+                          detail=d, loc="%s:%s" % (b.file, o["line"]))
+        # IntToFloat only applied to an operand's own integer payload
+        for o in ops:
+            if o["kind"] == "cast" and o["ck"] == "IntToFloat":
+                okc = o["a"][0] in ("self", "rhs") and o["a"][1] == "Integer" and not o["a"][2]
+                dd = {"method": mname, "line": o["line"], "operand": list(o["a"])}
+                chk.instance(rid, dd, ok=okc)
+                if not okc:
+                    chk.violation(rid, b.file, name, "IntToFloat of a computed value",
+                                  "%s converts %s to f64 (line %s) instead of an operand's integer payload: mixed/÷ arithmetic must equal the float "
+                                  "operation on the converted integer" % (mname, o["a"][0], o["line"]), detail=dd, loc="%s:%s" % (b.file, o["line"]))
         if wrap:
             calls = [o for o in ops if o["kind"] == "call" and re.search(r"::wrapping_(add|sub|mul|rem|div)$", o["callee"])]
             good = [o for o in calls if o["callee"].endswith("::" + wrap)]
